@@ -26,7 +26,7 @@ TECHNIQUE = ('Hypothesis-generated modules with designated failing statements x 
 LEVEL_TEXT = ("Generated importable modules (docstrings opened on their own line or sharing the line with text, all quote "
               "forms and prefixes, decorators and decorator lists, multi-line signatures, class / method nesting, "
               "definitions under if/try/with, google blocks with and without leading prose, freeform groups separated by "
-              "prose at two indentations, preceding multi-line statements and multi-line wants) whose doctests pass or fail "
+              "prose at two indentations, blocks under a freeform skip word (DisableDoctest: / Ignore: / Script: ...) before a group, preceding multi-line statements and multi-line wants) whose doctests pass or fail "
               "at a designated statement in one of eight ways (raise directly, on the 2nd/3rd line of a multi-line "
               "statement in both prompt styles, inside module code, inside a helper defined by an earlier longer / shorter "
               "part, wrong want of 1-3 lines, wrong want after a multi-line statement) are collected in the styles auto, "
@@ -197,7 +197,7 @@ def _fail_kind(lines, x):
 
 @composite
 def module_strategy(D, max_items):
-    m = modules.build_module(D, importable=True, fail_kinds=FAIL_KINDS, max_items=max_items)
+    m = modules.build_module(D, importable=True, fail_kinds=FAIL_KINDS, max_items=max_items, disabled_blocks=True)
     return modules.case_of(m)
 
 
